@@ -383,6 +383,8 @@ type verifC14Client struct {
 	done     bool
 	lastLeft int64
 	reorged  bool
+
+	lostHeight uint32 // height of the told block that was disconnected
 }
 
 type verifC14H struct {
@@ -785,7 +787,7 @@ func (c *verifC14Client) lastSeenHeight() uint32 {
 	if c.seen != nil {
 		return c.seen.Height
 	}
-	return 0
+	return c.lostHeight
 }
 
 func (h *verifC14H) checkHints(where string) {
@@ -897,6 +899,7 @@ func (h *verifC14H) disconnect() {
 		c.reorged = true
 		if c.seen != nil && c.seen.Hash == b.Hash && c.seen.Height == b.Height {
 			c.seen = nil
+			c.lostHeight = b.Height
 			if !c.dead {
 				c.needNeg = true
 			}
